@@ -355,14 +355,13 @@ func (a *Agent) RelayUDPDatagram(streamID uint64, destAddr net.Addr, destPort ui
 	nextHop := dest.NextHop
 	dest.mu.RUnlock()
 
-	var ciphertext []byte
-	if sessionKey != nil {
-		ciphertext, err = sessionKey.Encrypt(data)
-		if err != nil {
-			return err
-		}
-	} else {
-		ciphertext = data
+	// Encryption is mandatory: never send the datagram in plaintext.
+	if sessionKey == nil {
+		return fmt.Errorf("UDP association has no session key")
+	}
+	ciphertext, err := sessionKey.Encrypt(data)
+	if err != nil {
+		return err
 	}
 
 	datagram := &protocol.UDPDatagram{
@@ -575,9 +574,15 @@ func (a *Agent) handleUDPOpenAck(peerID identity.AgentID, frame *protocol.Frame)
 		return
 	}
 
-	// Compute session key from the ephemeral keys
+	// Compute session key from the ephemeral keys. End-to-end encryption is
+	// mandatory: an ack without an ephemeral key fails the association instead
+	// of switching it to plaintext.
 	var zeroKey [protocol.EphemeralKeySize]byte
-	if ack.EphemeralPubKey != zeroKey {
+	if ack.EphemeralPubKey == zeroKey {
+		dest.closePendingOpen(fmt.Errorf("encryption required: UDP_OPEN_ACK without ephemeral key"))
+		return
+	}
+	{
 		// Compute shared secret using our private key and remote public key
 		sharedSecret, err := crypto.ComputeECDH(dest.EphemeralPrivKey, ack.EphemeralPubKey)
 		if err != nil {
@@ -682,14 +687,13 @@ func (a *Agent) handleUDPDatagram(peerID identity.AgentID, frame *protocol.Frame
 		sessionKey := dest.SessionKey
 		dest.mu.RUnlock()
 
-		var plaintext []byte
-		if sessionKey != nil {
-			plaintext, err = sessionKey.Decrypt(datagram.Data)
-			if err != nil {
-				return
-			}
-		} else {
-			plaintext = datagram.Data
+		// Encryption is mandatory: without a session key nothing is relayed.
+		if sessionKey == nil {
+			return
+		}
+		plaintext, err := sessionKey.Decrypt(datagram.Data)
+		if err != nil {
+			return
 		}
 
 		// Update activity
